@@ -152,7 +152,44 @@ func families(run *vk.Run) []*family {
 		{"product renamed", `query Q($t: String!) { product(sku: $t) { name price stock } }`, `{"t":"s3"}`},
 		{"newest", `{ newest { name stock price } }`, ``},
 	}
-	for _, f := range []*family{fc, fa, fr, fk} {
+	// S-areq: @requires field sets with arguments - the planner adds aliased copies
+	// of the required fields next to the client's own selections (alias choice and
+	// variable naming must not depend on map order or on what was planned before)
+	areq := fedlab.SAReq()
+	fq := &family{name: "S-areq", s: areq, u: fedlab.SAReqUniverse(areq), schema: mustSchema(areq.SDL())}
+	fq.layout = fedlab.ByType(areq, 3, func(r fedlab.FieldRef) int {
+		switch r.String() {
+		case "Parcel.weight":
+			return 1
+		case "Parcel.shipping", "Parcel.box", "Parcel.label":
+			return 2
+		}
+		return 0
+	}, "base3")
+	fq.alpha = []request{
+		{"parcels other unit", `{ parcels { dims { size(unit: INCH) } shipping box } }`, ``},
+		{"parcels same unit", `{ parcels { dims { size(unit: CM) kind } shipping label } }`, ``},
+		{"parcel weight var", `query Q($u: WU) { parcel { weight(unit: $u) label shipping } }`, `{"u":"KG"}`},
+		{"parcel weight renamed", `query Q($w: WU) { parcel { weight(unit: $w) label shipping } }`, `{"w":"G"}`},
+	}
+	// S-nreq: a @requires input that crosses an entity boundary
+	nreq := fedlab.SNReq()
+	fn := &family{name: "S-nreq", s: nreq, u: fedlab.SNReqUniverse(nreq), schema: mustSchema(nreq.SDL())}
+	fn.layout = fedlab.ByType(nreq, 3, func(r fedlab.FieldRef) int {
+		switch r.String() {
+		case "Address.zip", "Address.city":
+			return 1
+		case "Account.label", "Account.badge":
+			return 2
+		}
+		return 0
+	}, "base3")
+	fn.alpha = []request{
+		{"accounts label", `{ accounts { label name } }`, ``},
+		{"accounts both", `{ accounts { badge label address { city } note } }`, ``},
+		{"account", `{ account { id label address { zip } } }`, ``},
+	}
+	for _, f := range []*family{fc, fa, fr, fk, fq, fn} {
 		f.ops = fedlab.GenOps(fedlab.GenConfig{Schema: f.schema, Widths: vk.Pick(run, []int{1, 2, 1}, []int{1, 2, 2}), ArgMenu: func(t, fl string) [][]fedlab.ArgUse {
 			switch t + "." + fl {
 			case "Query.user", "Query.item":
@@ -161,11 +198,15 @@ func families(run *vk.Run) []*family {
 				return [][]fedlab.ArgUse{{{Name: "sku", Value: `"s2"`}}}
 			case "Query.node":
 				return [][]fedlab.ArgUse{{{Name: "id", Value: `"b1"`}}}
+			case "Dims.size":
+				return [][]fedlab.ArgUse{nil, {{Name: "unit", Value: "INCH"}}}
+			case "Parcel.weight":
+				return [][]fedlab.ArgUse{nil, {{Name: "unit", Value: "G"}}}
 			}
 			return nil
 		}}, "query")
 	}
-	return []*family{fc, fa, fr, fk}
+	return []*family{fc, fa, fr, fk, fq, fn}
 }
 
 // ---- controlled map order
